@@ -32,6 +32,36 @@ META = {
     },
 }
 
+META.update({
+    "C03": {
+        "text": "Proof: invariant Canonical (raw = header ++ zero-padded TLVs of the struct's attribute list, length field "
+                "= body size, multiple of 4) is established by Build from ANY previous state and preserved by every "
+                "building operation incl. typed, integrity and fingerprint setters, for sequences of any length "
+                "(induction); decoding the raw bytes of a canonical message returns exactly the struct (via the C02 "
+                "completeness theorem) and Equal agrees. Rests on a closed-form lemma for Add over an explicit "
+                "spare-capacity buffer model. Correspondence: random building sequences with library re-decode.",
+        "note": PROOF_NOTE + "Precondition as in the property: sizes fit the 16-bit length field (AllFit/OpsFit). "
+                "Encode-from-decoded is covered by the correspondence only (theorem not yet proved).",
+        "technique": "Lean 4 invariant proof by induction over operation sequences + differential correspondence",
+    },
+    "C08": {
+        "text": "Proof: non-interference over the explicit stale-buffer state: Add, Build (all setters) and every copying "
+                "decode give results that do not depend on the previous contents/capacity of the message object "
+                "(build_independent, decodeFrom_independent, add_independent_of_spare). Correspondence on poisoned "
+                "buffers with caller-side overwrites decides the aliasing half.",
+        "note": PROOF_NOTE + "Aliasing is not expressible in the value-semantic model (correspondence only).",
+        "technique": "Lean 4 non-interference theorems over a buffer model with explicit spare capacity + correspondence",
+    },
+    "C09": {
+        "text": "Proof: accept-iff theorems for every limit (text kinds, IP lengths, error codes with/without default "
+                "reason, integrity after fingerprint), atomicity of every failing setter (state returned = state "
+                "before, because the models keep Go's order of effects), Build returns the first failing setter's "
+                "error with exactly the preceding setters applied. Correspondence with boundary values, both tags.",
+        "note": PROOF_NOTE,
+        "technique": "Lean 4 theorems over transliterated setters + boundary-value correspondence",
+    },
+})
+
 NOT_APPLICABLE = {p: "check not built yet in this round (see DESIGN.md §4 for the plan)" for p in
-                  ["C03", "C04", "C05", "C06", "C07", "C08", "C09", "C10", "C11", "C12", "C13", "C14", "C15", "C16", "C17",
+                  ["C04", "C05", "C06", "C07", "C10", "C11", "C12", "C13", "C14", "C15", "C16", "C17",
                    "C18", "C20"]}
